@@ -88,6 +88,40 @@ def session(rng, nsteps):
     return st
 
 
+def relogin_session(rng, nsteps):
+    """The same requests issued as two users with different tables on one control connection (u, v, u ...)."""
+    s = 1
+    st = [["connect", s], ["send", s, "USER u"]]
+    cmds = []
+    for _ in range(nsteps):
+        p = rng.choice(PATHS)
+        ab = "/" + "/".join(p)
+        r = rng.random()
+        if r < 0.25:
+            cmds.append(["send", s, "MLST " + ab])
+        elif r < 0.45:
+            cmds.append(["send", s, "CWD " + ab])
+        elif r < 0.65:
+            cmds.append(["send", s, "MKD " + ab + "/n%d" % rng.randrange(2)])
+        elif r < 0.8:
+            cmds.append(["send", s, "DELE " + ab + "/f"])
+        else:
+            cmds.append(["send", s, "RNFR " + ab + "/f"])
+    order = ["u", "v", "u", "v"][: rng.choice([2, 3, 4])]
+    for i, who in enumerate(order):
+        if i:
+            st.append(["send", s, "USER " + who])
+        st += cmds
+        st.append(["send", s, "PWD"])
+    return st
+
+
+def cfg_for2(ta, tb):
+    users = [{"id": "u", "login": "u", "pw": "", "max": 0, "perms": ta, "home": [], "base": ["R"]},
+             {"id": "v", "login": "v", "pw": "", "max": 0, "perms": tb, "home": [], "base": ["R"]}]
+    return gen.std_cfg(ns=1, users=users)
+
+
 def families(tier, rng):
     n = 60 if tier == "quick" else 600
     return [("perm", session(rng, rng.choice([8, 14]))) for _ in range(n)]
@@ -113,9 +147,16 @@ def run(tier, seed):
         home = ["a"] if name == "hidden-root-readable-home" else []
         corecheck.validate(chk, cfg_for(table, home), TREE, [s for _, s in fam], label="perm:" + name)
         total += len({repr(s) for _, s in fam})
+    # the table that applies is the *current* user's: the same requests as two users on one connection
+    names = list(TABLES)
+    for _ in range(4 if tier == "quick" else 40):
+        a, b = rng.sample(names, 2)
+        fam2 = [relogin_session(rng, rng.choice([5, 8])) for _ in range(25 if tier == "quick" else 120)]
+        corecheck.validate(chk, cfg_for2(TABLES[a], TABLES[b]), TREE, fam2, label="relogin:%s/%s" % (a, b))
+        total += len({repr(x) for x in fam2})
     chk.cov["rule"] = ("permission tables (nested, overlapping, duplicated with disagreeing flags, unordered, empty, seeded random) x "
                        "sessions of permission-checked commands on targets of depth 0..3 spelled absolutely, relatively, with '..' "
-                       "detours and redundant slashes from varying working directories; the model computes the admissible verdicts "
+                       "detours and redundant slashes from varying working directories, and the same requests repeated after re-login as a user with another table on the same connection; the model computes the admissible verdicts "
                        "from the nearest entries and requires tree and cwd unchanged after a refusal (tree compared at every "
                        "quiescent instant); distinct = sessions x tables")
     chk.cov["distinct_nontrivial"] = total
